@@ -52,6 +52,12 @@ func dpStepOf(m vt.M) dpStep {
 		multi: vt.Bool(m["multi"]), trunk: vt.Bool(m["trunk"]), peer: vt.Bool(m["peer"])}
 }
 
+// dpStepRec is the abstract scenario step as it came in (kept in the trace so that a recorded scenario can be driven again).
+func dpStepRec(st dpStep) vt.M {
+	return vt.M{"a": st.a, "p": st.p, "i": st.i, "dp": st.dp, "fam": st.fam, "eni": st.eni, "def": st.def, "multi": st.multi, "extra": st.extra,
+		"trunk": st.trunk, "aset": st.aset, "peer": st.peer, "how": st.how}
+}
+
 func dpReadScenarios(t *testing.T) [][]dpStep {
 	var scens [][]dpStep
 	f := os.Getenv("VERIF_SCEN")
@@ -703,7 +709,7 @@ func TestVerifDatapathL1(t *testing.T) {
 				w.Emit(vt.M{"ev": "panic", "step": fmt.Sprintf("%+v", st), "panic": p})
 				break
 			}
-			w.Emit(vt.M{"ev": "setup_c", "cfg": cfgRec, "links": links, "confs": confs})
+			w.Emit(vt.M{"ev": "setup_c", "step": dpStepRec(st), "cfg": cfgRec, "links": links, "confs": confs})
 		}
 	}
 }
@@ -1105,7 +1111,7 @@ func TestVerifDatapathL2(t *testing.T) {
 				if err != nil {
 					es = err.Error()
 				}
-				w.Emit(vt.M{"ev": "setup_d", "cfg": rec, "ok": err == nil, "err": es, "dump": rw.dump()})
+				w.Emit(vt.M{"ev": "setup_d", "step": dpStepRec(st), "cfg": rec, "ok": err == nil, "err": es, "dump": rw.dump()})
 			case "teardown":
 				if rw.pods[st.p] == nil {
 					continue
@@ -1123,7 +1129,7 @@ func TestVerifDatapathL2(t *testing.T) {
 				}
 				gone := rw.pods[st.p]
 				delete(rw.pods, st.p)
-				w.Emit(vt.M{"ev": "teardown_d", "pod": st.p, "how": how, "ok": err == nil, "err": es, "dump": rw.dump()})
+				w.Emit(vt.M{"ev": "teardown_d", "step": dpStepRec(st), "pod": st.p, "how": how, "ok": err == nil, "err": es, "dump": rw.dump()})
 				_ = gone.ns.Close()
 			}
 			if rget {
